@@ -37,7 +37,15 @@ MULTIGRP = [["cat", [["grp", ["lit", "a"]], ["grp", ["lit", "b"]], ["grp", ["rep
             ["cat", [["grp", ["alt", [["lit", "a"], ["grp", ["lit", "b"]]]]], ["grp", ["rep", ["lit", "c"], 0, 1]]]],
             ["grp", ["cat", [["grp", ["lit", "a"]], ["grp", ["rep", ["brk", False, [["r", "a", "c"]]], 1, -1]]]]],
             ["cat", [["grp", ["rep", ["brk", False, [["k", "alpha"]]], 1, -1]], ["lit", " "], ["grp", ["rep", ["brk", False, [["k", "alpha"]]], 1, -1]]]],
-            ["rep", ["grp", ["alt", [["grp", ["lit", "a"]], ["grp", ["lit", "b"]]]]], 1, -1]]
+            ["rep", ["grp", ["alt", [["grp", ["lit", "a"]], ["grp", ["lit", "b"]]]]], 1, -1],
+            # groups AFTER bracket expressions whose members are characters special elsewhere: the group numbers used by \N come from a
+            # separate scanner of the pattern text, which has to skip brackets exactly as the parser does
+            ["cat", [["lit", "a"], ["brk", False, [["c", "\\"]]], ["grp", ["lit", "b"]]]],
+            ["cat", [["grp", ["brk", False, [["r", "a", "z"]]]], ["brk", False, [["c", "\\"]]], ["grp", ["brk", False, [["r", "a", "z"]]]]]],
+            ["cat", [["brk", True, [["c", "b"], ["c", "\\"]]], ["grp", ["lit", "b"]], ["grp", ["any"]]]],
+            ["cat", [["brk", False, [["c", "a"], ["c", "["], ["c", "*"]]], ["grp", ["lit", "b"]]]],
+            ["cat", [["brk", False, [["c", "["], ["c", "="], ["c", "a"]]], ["grp", ["any"]], ["brk", False, [["c", "("]]], ["grp", ["any"]]]],
+            ["cat", [["brk", False, [["c", "("], ["c", "a"]]], ["grp", ["lit", "b"]]]]]
 
 
 @st.composite
